@@ -413,3 +413,27 @@ func UnderErrNil(b *ssa.BasicBlock, errV ssa.Value) bool {
 	}
 	return false
 }
+
+// ConstFold evaluates v when it is an integer constant expression built from
+// constants with + - * (go/ssa does not fold `4 + 1` on lifted locals).
+func ConstFold(v ssa.Value) (int64, bool) {
+	v = StripConv(v)
+	if k, ok := ConstInt(v); ok {
+		return k, true
+	}
+	if b, ok := v.(*ssa.BinOp); ok {
+		x, ok1 := ConstFold(b.X)
+		y, ok2 := ConstFold(b.Y)
+		if ok1 && ok2 {
+			switch b.Op {
+			case token.ADD:
+				return x + y, true
+			case token.SUB:
+				return x - y, true
+			case token.MUL:
+				return x * y, true
+			}
+		}
+	}
+	return 0, false
+}
